@@ -16,6 +16,7 @@ per channel, per connection list), then asks for round trips:
     recv <id> <k>* ; cached <id> <nd|k>* ; start <id> <l>* ; prov <id> <l>*
     ilink <id> <in> <child> <chan> ; olink <id> <child> <chan> <out>
     conn <id> <d|s> <i|o> <child> <chan> (<child> <chan>)*   one connection list of composite <id>
+    refused <id> <child> <in> <child> <out>                   a data connection the hint check would refuse today
     build <id>            current graph := the tree below <id>, a root
     descend <label>       current graph := that child, to be pickled on its own
     view (<child> <chan>)*  the `_inputs` view the current (workflow) root carries, after `build`
@@ -52,7 +53,7 @@ def init : St := ⟨[], [], none, false, []⟩
 def emptyCore (label cls : Nat) (kind : Kind) : Core :=
   { label, cls, kind, ins := [], outs := [], sigIns := [], sigOuts := [], received := [], running := false,
     failed := false, exec := .none, bodyExec := .none, cached := none, starting := [], inLinks := [],
-    outLinks := [], detached := none, prov := [] }
+    outLinks := [], detached := none, prov := [], refused := [] }
 
 def parseKind : String → Option Kind
   | "l" => some .leaf | "m" => some .macro | "f" => some .forLoop | "w" => some .workflow | _ => none
@@ -133,12 +134,12 @@ partial def showNode (p : Path) : Node → List String
     (ch.map (showNode q)).flatten
 
 def showErr : Err → String
-  | .key => "key" | .attr => "attr" | .runtime => "runtime" | .type => "type"
+  | .key => "key" | .attr => "attr" | .runtime => "runtime" | .type => "type" | .conn => "conn"
 
-/-- `<r><f><pi><po><pf><k>`: revIter firing pushIn pushOut pushFor keepCache, one word of six 0/1 -/
+/-- `<r><f><pi><po><pf><k><v>`: revIter firing pushIn pushOut pushFor keepCache revalidate, one word of seven 0/1 -/
 def parseCfg (w : String) : Option Cfg :=
   match w.toList.map fun ch => parseBool ch.toString with
-  | [some r, some f, some pi, some po, some pf, some k] => some ⟨r, f, pi, po, pf, k⟩
+  | [some r, some f, some pi, some po, some pf, some k, some v] => some ⟨r, f, pi, po, pf, k, v⟩
   | _ => none
 
 def finish (s : St) (haunted : Bool) : Except Err Node → St × List String
@@ -147,7 +148,8 @@ def finish (s : St) (haunted : Bool) : Except Err Node → St × List String
 
 /-- one round trip of the current graph; `x` = connections to non-siblings are not stored,
 `o` = `Node.load` takes the channels over (no twin), `vw` = a workflow's IO view is not stored -/
-def roundTrip (s : St) (cfg : Cfg) (x o vw : Bool) (file : Bool) (cls : Option Nat) : St × List String :=
+def roundTrip (s : St) (cfg : Cfg) (x o vw : Bool) (file : Bool) (cls : Option Nat) (own : Bool := false) :
+    St × List String :=
   let wipe (r : Except Err Node) : Except Err Node :=
     match r with
     | .ok g => .ok (if vw then g else wipeView s.view g)
@@ -162,7 +164,8 @@ def roundTrip (s : St) (cfg : Cfg) (x o vw : Bool) (file : Bool) (cls : Option N
     | .error e => finish s false (.error e)
     | .ok _ =>
       if !dumpable n then finish s false (.error .key) else
-      if file then finish s (!o) (wipe (fileLoad cfg (cls.getD n.core.cls) (save pp n)))
+      if file then
+        finish s (!o) (wipe (fileLoadAt cfg (cls.getD n.core.cls) (if own then some none else none) (save pp n)))
       else finish s s.haunted (wipe (load cfg (save pp n)))
 
 def chanOp (s : St) (io : String) (id label val strict : String) : St × List String :=
@@ -265,15 +268,27 @@ def step (s : St) (ws : List String) : St × List String :=
     match parseCfg w, parseBool x, parseBool o, parseBool vw with
     | some cfg, some x, some o, some vw => roundTrip s cfg x o vw true none
     | _, _, _, _ => bad
+  | ["fileloadown", w, x, o, vw] =>
+    -- `Node.load` of a fresh parentless node that keeps its own (empty) detached path
+    match parseCfg w, parseBool x, parseBool o, parseBool vw with
+    | some cfg, some x, some o, some vw => roundTrip s cfg x o vw true none true
+    | _, _, _, _ => bad
   | ["fileload", w, x, o, vw, cls] =>
     match parseCfg w, parseBool x, parseBool o, parseBool vw, cls.toNat? with
     | some cfg, some x, some o, some vw, some cls => roundTrip s cfg x o vw true (some cls)
     | _, _, _, _, _ => bad
   | ["inplace", l, w, k] =>
     -- the child labelled <l> of the current graph loads, in place, the state it has just saved
-    match l.toNat?, parseCfg w, parseBool k, s.cur with
+    match l.toNat?, parseCfg w, k.toNat?, s.cur with
     | some l, some cfg, some k, some (n, pp) => finish s false (loadInPlace cfg k pp n l)
     | _, _, _, _ => bad
+  | ["refused", id, a, b, c, d] =>
+    match id.toNat?, a.toNat?, b.toNat?, c.toNat?, d.toNat? with
+    | some id, some a, some b, some c, some d =>
+      match updRow s id fun k => { k with refused := k.refused ++ [((a, b), (c, d))] } with
+      | some s' => (s', [])
+      | none => bad
+    | _, _, _, _, _ => bad
   | "view" :: ls =>
     match (nats ls).bind pairsOf with
     | some v => ({ s with view := v }, [])
